@@ -105,6 +105,9 @@ def cases(seed, tier, shard, nshards):
             pre += 'T \\%s{T $a \\mbox{T} b$ Zm7y---z} T\n\nT ${Zm8y--z}$ T\n\n' % box
             mp.append(['Zm7y', subst('Zm7y---z'), 'running text after mathematics that holds a box, inside \\%s' % box])
             mp.append(['Zm8y', 'Zm8y--z', 'mathematics in the paragraph after such a box'])
+        if r.random() < 0.2:
+            # a size or font declaration that is still in force when the next heading arrives (no group around it)
+            pre += '%s T T\n\n' % r.choice(['\\small', '\\bfseries', '\\itshape', '\\small\\bfseries'])
         yield {'src': docs.latex(d, body_prefix=pre, body_suffix=suf, tight=tight), 'order': docs.markers(d), 'probes': probes_of(d), 'verbs': verbs_of(d), 'cls': d['cls'],
                'twins': tw, 'modeprobes': mp}
 
